@@ -24,9 +24,11 @@ type propSpec struct {
 	// driver lock deadlock.
 	CrashProperty    string
 	DeadlockProperty string
-	Rule             string
-	Real, Stub       []string
-	Assumptions      []string
+	// RaceScenario: the thorough tier repeats this scenario under the race detector
+	RaceScenario string
+	Rule         string
+	Real, Stub   []string
+	Assumptions  []string
 }
 
 var commonReal = []string{"all of gocql reached by the scenario (session, executor, policies, pools, connection, framing, marshalling): real code built from /repo with -tags verif", "Go runtime scheduler, channels, sync primitives: real"}
@@ -69,8 +71,8 @@ var properties = map[string]*propSpec{
 		Rule: "runs of scenario sec: one cell of the documented TLS table (Config nil/present x InsecureSkipVerify x EnableHostVerification x ServerName x CA / key-pair file variants x certificate presented x host form) with real crypto/tls over the simulated transport, or one cell of the authentication table (class demanded x client authenticator x credentials); distinct = distinct canonical-log fingerprint; non-trivial = a non-default variant was drawn and the session attempt completed"},
 	"C16": {Level: "exploration", Scenarios: []scenRef{{Name: "topo", quickS: 25, thoroughS: 600}}, DeadlockProperty: "C17",
 		Rule: "runs of scenario topo: tape-chosen membership/event/fault histories on a cluster model, each step followed by a settle and a full comparison of ring, address index, host list, pools and policy with the model; distinct = distinct canonical-log fingerprint; non-trivial = at least one membership change or fault was applied and at least one comparison completed"},
-	"C17": {Level: "exploration", Scenarios: []scenRef{{Name: "sec", quickS: 10, thoroughS: 120}}, DeadlockProperty: "C17",
-		Rule: "(interim) runs of scenario sec observed for goroutines surviving a failed NewSession"},
+	"C17": {Level: "exploration", Scenarios: []scenRef{{Name: "life", quickS: 25, thoroughS: 600}, {Name: "sec", quickS: 6, thoroughS: 60}}, DeadlockProperty: "C17", RaceScenario: "life",
+		Rule: "runs of scenario life (queries, 1-2 Session.Close calls at tape-chosen points, events, connection and control-connection losses, handshake failures, dial refusals, parks at pool / debouncer / control / Close yield points) and of scenario sec (goroutines surviving failed session creation); distinct = distinct canonical-log fingerprint; non-trivial = at least one fault or park fired and at least one operation completed"},
 	"C11": {Level: "exploration", Scenarios: []scenRef{{Name: "pick", quickS: 15, thoroughS: 600}},
 		Rule: "runs of scenario pick: generated cluster layouts and add/remove/up/down/keyspace histories against a host-set model, picks iterated to exhaustion, plus scheduled picks racing mutations; distinct = distinct canonical-log fingerprint; non-trivial = at least one state-changing history op was applied and at least one checked pick with two or more known hosts completed"},
 	"C08": {Level: "exploration", Scenarios: []scenRef{{Name: "ids", quickS: 15, thoroughS: 600, Extra: []string{"-sim.nofaultevery=0"}}}, CrashProperty: "C08",
